@@ -247,6 +247,40 @@ async def run_c17(spec: dict[str, Any], hist: History, tr: Tracker) -> None:
             if s.alive and tr.cur.get(s.conn.cid) is not None:
                 await tr.fetch_flags(s)
                 tr.recent_agreement(s, 'final')
+        # changing flags (STORE, or the implicit \\Seen of a body FETCH) must
+        # not change how many messages are still waiting to be \\Recent for
+        # somebody: an unselected observer's STATUS (RECENT) stays the same
+        watcher = Session(env, hist, 6, Sched(), spec['seed'] + 6)
+        actors = [s for s in sessions if s.alive and s.shadow.count
+                  and (tr.cur.get(s.conn.cid) is not None)
+                  and tr.cur[s.conn.cid].rw]        # type: ignore[union-attr]
+        if actors and await watcher.start():
+            actor = rng.choice(actors)
+
+            async def status_recent() -> int | None:
+                r = await watcher.cmd(b'STATUS INBOX (RECENT)')
+                for u in r.untagged:
+                    if u.typ == b'STATUS' and isinstance(u.data, dict):
+                        return u.data.get('att', {}).get(b'RECENT')
+                return None
+            r1 = await status_recent()
+            cmdline = rng.choice([
+                b'STORE 1:* +FLAGS.SILENT (\\Flagged)',
+                b'STORE 1:* -FLAGS.SILENT (\\Flagged)',
+                b'STORE 1:* +FLAGS.SILENT (\\Seen \\Answered)',
+                b'FETCH 1:* (BODY[TEXT])'])
+            await actor.cmd(cmdline)
+            tr.harvest(actor)
+            r2 = await status_recent()
+            tr.count('flag_change_recent_probes')
+            if r1 is not None and r2 is not None and r1 != r2:
+                hist.report('store-changes-recent:pending-count',
+                            '%s by session %d changed STATUS INBOX (RECENT) '
+                            'of an unselected observer from %d to %d'
+                            % (cmdline.decode(), actor.conn.cid, r1, r2),
+                            {'conn': actor.conn.cid})
+            await watcher.cmd(b'LOGOUT')
+            watcher.retired = True          # type: ignore[attr-defined]
         late = Session(env, hist, 9, Sched(), spec['seed'] + 9)
         if await late.start():
             await tr.select(late, rw=True)
@@ -478,7 +512,8 @@ class C17(Check):
         rng = random.Random(seed * 2741 + 17)
         for i in range(n):
             nsess = rng.choice([2, 3, 3])
-            backend = 'dict' if rng.random() < 0.75 else 'maildir'
+            backend = 'dict' if rng.random() < 0.75 else \
+                ('maildir-colon' if i % 3 == 0 else 'maildir')
             yield {'seed': seed * 1_000_003 + i, 'backend': backend,
                    'nsess': nsess, 'nmsgs': rng.randint(0, 3),
                    'ncmds': rng.randint(3, 10 if backend == 'dict' else 6),
@@ -520,6 +555,7 @@ class C17(Check):
                 aborted = 'session-' + s.failed
         mine = ('recent-count-disagrees', 'recent-told-to-two-rw-selections',
                 'store-changes-recent',
+                'store-changes-recent:pending-count',
                 'unclaimed-recent-not-given-to-first-rw-select',
                 'unclaimed-recent-not-given-to-first-rw-select:'
                 'after-deselection',
